@@ -106,10 +106,10 @@ def check_written_file(data, level, cs, restore, payload, nobj, hdr_sets):
         if not conts or st['restorePointsOffset'] != conts[-1]['pos'] or conts[-1]['payload']:
             bad.append(('restorePointsOffset', 'restorePointsOffset %d does not designate the trailing (empty) restore-point container' % st['restorePointsOffset']))
     for name, off, fmt in (('apiNumber', 8, '<I'), ('applicationId', 12, 'B'), ('compressionLevel', 13, 'B'), ('applicationMajor', 14, 'B'),
-                           ('applicationMinor', 15, 'B'), ('applicationBuild', 44, '<I')):
+                           ('applicationMinor', 15, 'B'), ('applicationBuild', 36, '<I')):
         if name in hdr_sets and struct.unpack_from(fmt, data, off)[0] != hdr_sets[name]:
             bad.append(('verbatim', 'caller-supplied %s=%d is stored as %d' % (name, hdr_sets[name], struct.unpack_from(fmt, data, off)[0])))
-    for name, off in (('measurementStartTime', 48), ('lastObjectTime', 64)):
+    for name, off in (('measurementStartTime', 40), ('lastObjectTime', 56)):
         if name in hdr_sets and data[off:off + 16] != hdr_sets[name]:
             bad.append(('verbatim', 'caller-supplied %s is not stored verbatim' % name))
     return bad
@@ -121,7 +121,7 @@ SAFE_POOL = ['CanMessage', 'CanMessage', 'CanMessage', 'AppText', 'AppText', 'Ca
              'CanDriverStatistic', 'J1708Message', 'RealtimeClock', 'WlanFrame', 'AfdxFrame', 'A429Message', 'LinSpikeEvent2']
 
 HDR_FIELDS = {'apiNumber': ('U32', 8), 'applicationId': ('U8', 12), 'compressionLevel': ('U8', 13), 'applicationMajor': ('U8', 14),
-              'applicationMinor': ('U8', 15), 'applicationBuild': ('U32', 44)}
+              'applicationMinor': ('U8', 15), 'applicationBuild': ('U32', 36)}
 
 
 class Gen:
@@ -192,6 +192,9 @@ def gen_write_cases(meta, rng, tier):
             objs = [g.obj('CanMessage') for _ in range(nobj)]
         else:
             objs = [g.obj() for _ in range(nobj)]
+            if nobj and rng.random() < 0.2:
+                # a caller copying a Vector log passes its restore-point objects (type 115) through as well
+                objs.insert(rng.randrange(0, len(objs) + 1), g.obj('RestorePointContainer'))
         hs, hd = g.header()
         line = 'FW %d %d %d %s' % (level, cs, restore, hs)
         cases.append({'line': (line.rstrip() + ''.join(' | ' + o for o in objs)), 'level': level, 'cs': cs, 'restore': restore,
